@@ -185,7 +185,9 @@ def search(ctx, deep):
                 with np.errstate(all='ignore'):
                     want = np.asarray(c.percent_point(np.asarray(yy), np.asarray(vv_)), dtype=float)
                 yy, vv_ = np.asarray(yy, dtype=np.float32), np.asarray(vv_, dtype=np.float32)
-                tol = 1e-6
+                # Clayton's closed form computes in the precision of its input; the Brent families solve in binary64
+                # whatever the storage type of the probabilities, so there the answer is the float64 answer
+                tol = 1e-6 if fam == 'clayton' else 1e-12
             else:
                 want, tol = ref, 0.0
             try:
@@ -206,6 +208,28 @@ def search(ctx, deep):
                 ctx.fail_input(f'{fam}.percent_point', {'theta': th, 'container': name, 'y': list(map(float, yv)), 'v': list(map(float, vv))},
                                {'got': got.tolist(), 'ndarray_answer': want.tolist()},
                                'the i-th output depends only on (y[i], v[i]) whatever the container', f'{fam}.percent_point:container-dependent[{name}]')
+    # purity: an earlier result keeps its values when percent_point is called again (same object, another object of
+    # the family) on equally long vectors, and a repeated call gives the same values
+    for fam in B.FAMS:
+        for th in B.theta_all(fam)[:5]:
+            ya, va = np.array([0.2, 0.5, 0.9, 0.35, 0.61]), np.array([0.6, 0.3, 0.8, 0.35, 0.12])
+            yb, vb = np.array([0.7, 0.15, 0.4, 0.88, 0.5]), np.array([0.25, 0.55, 0.9, 0.4, 0.7])
+            for label, other in (('same-object', None), ('other-object', lambda: B.make(fam, th))):
+                checked += 1
+                try:
+                    probs = B.purity_problems(lambda: B.make(fam, th), 'percent_point', [ya, va], [yb, vb], other)
+                except Exception as e:  # noqa
+                    ctx.count(f'purity:{fam}:raises({vc.exc_kind(e)})')
+                    continue
+                probs = [(k, d) for k, d in probs if k not in ('input-mutated', 'result-aliases-input')]   # C20's subject
+                for kind, detail in probs:
+                    found += 1
+                    ctx.fail_input(f'{fam}.percent_point', {'theta': th, 'first': [ya.tolist(), va.tolist()], 'second': [yb.tolist(), vb.tolist()],
+                                                          'second_call_on': label}, detail,
+                                   'an earlier result keeps its values and a repeated call gives the same values, whatever was called in between',
+                                   f'{fam}.percent_point:{kind}')
+                if probs:
+                    break
     # the `ppf` alias (an observe-at entry point) is percent_point: same values bitwise, positional and by keyword,
     # including roots close to 1 and close to 0
     for fam in B.FAMS:
